@@ -315,7 +315,8 @@ class ParameterScenario(Scenario):
                 assert len(overwrite["t"]) == len(overwrite["y"]), "Number of time points in overwrite does not match number of values"
                 for t, y in zip(overwrite["t"], overwrite["y"]):
                     par.ts[pop_label].insert(t, y)
-                par.smooth(tvec[tvec >= scen_start], pop_names=pop_label, method=self.interpolation)
+                if np.any(tvec >= scen_start):  # (an overwrite that only starts after the end of the simulation changes nothing in it)
+                    par.smooth(tvec[tvec >= scen_start], pop_names=pop_label, method=self.interpolation)
 
                 # Disable parameter function during scenario
                 if has_function:
